@@ -162,8 +162,13 @@ pub fn parameter_has_annotation(lines: &[&str], line: usize, end_char: usize) ->
     };
 
     // Get the text after the parameter name
+    // `end_char` may be stale relative to the current text and fall inside a multi-byte
+    // character; `get` returns None instead of panicking in that case.
     let after_param = if end_char < line_text.len() {
-        &line_text[end_char..]
+        match line_text.get(end_char..) {
+            Some(text) => text,
+            None => return false,
+        }
     } else {
         return false;
     };
